@@ -120,7 +120,7 @@ class EdgeShuffler:
                 self.rng.shuffle(items)
                 sim.clockDrivers = dict(items)
                 self.stats.fault('perm_drivers')
-                sig.append(tuple(d.name for d, _ in items))
+                sig.append(tuple(getattr(d, 'name', d) for d, _ in items))      # (the key type is the library's business)
             if 'clockables' in self.kinds:
                 for drv, ds in sim.clockDrivers.items():
                     if len(ds.clockables) > 1:
